@@ -29,7 +29,7 @@ def leafOld (M : RefMap) (es : List Edit) : Nat → Name → Option Oid
 def specLineFull (M : RefMap) (es : List Edit) (e : Edit) : Option LogLine :=
   match e.update.change, M e.name with
   | .update .only _ (.object new), some (.symbolic next) =>
-    (match leafOld M es 6 next with
+    (match leafOld M es (es.length + 1) next with
       | some p => if p = new then none else some (p, new)
       | none => some (0, new))
   | _, ex => specLine ex e
